@@ -315,7 +315,9 @@ def run(ctx):
 
     # ---------------------------------------------------------------- C20.5
     ctx.rule('C20.5', 'the frame window is bounded by its own length: in FrameStore::push the push into the frame deque is dominated by a comparison of that deque\'s len() with the configured cap, and the "full" edge of that comparison passes a pop before the push. A cap enforced through seq arithmetic (offset from base_seq) instead of the length stops evicting as soon as seqs repeat, go backwards or come from several streams.')
-    fp = P.fn(FS + 'push')
+    from ..inline import inline_calls as _inl5
+    # `is_full()` / `evict_oldest()` style helpers of the store are spliced into push
+    fp = _inl5(P, P.fn(FS + 'push'), lambda body, callee: callee.startswith(FS) and not callee.endswith('::push'), depth=2, note=ctx.note)
     ctx.touch(fp)
 
     def on_frames(g, op):
